@@ -264,6 +264,9 @@ class NCEval:
         """Evaluate a straight-line ``_create_matrices`` body; ``if <flag>:`` on a boolean
         parameter is decided by ``flags``.  Returns the list of returned values."""
         env: dict[str, object] = dict(flags)
+        for p in fn.params:
+            if p not in env and p not in {"self", "cls"}:
+                env[p] = ("dim", p)  # a size: only ever an argument of eye() / create_symbol_matrix() / helpers
         return self._block(fn.node.body, env, fn)
 
     def _block(self, body, env, fn):
@@ -275,7 +278,11 @@ class NCEval:
                 targets = st.targets if isinstance(st, ast.Assign) else [st.target]
                 v = self.ev(value, env, fn)
                 for t in targets:
-                    if not isinstance(t, ast.Name):
+                    if isinstance(t, (ast.Tuple, ast.List)) and isinstance(v, list) and len(v) == len(t.elts) and all(isinstance(e, ast.Name) for e in t.elts):
+                        for e, x in zip(t.elts, v):
+                            env[e.id] = x
+                        continue
+                    if not isinstance(t, ast.Name) or isinstance(v, list):
                         raise NCError(f"assignment target `{unparse(t)}`")
                     env[t.id] = v
                 continue
@@ -287,6 +294,11 @@ class NCEval:
                 if isinstance(test, ast.Name) and isinstance(env.get(test.id), bool):
                     cond = env[test.id] != negate
                     r = self._block(st.body if cond else st.orelse, env, fn)
+                    if r is not None:
+                        return r
+                    continue
+                if unparse(st.test) in getattr(self, "assume", {}):
+                    r = self._block(st.body if self.assume[unparse(st.test)] else st.orelse, env, fn)
                     if r is not None:
                         return r
                     continue
@@ -383,9 +395,9 @@ class NCEval:
                     res = self._block(target.node.body, inner, target)
                 finally:
                     self._depth -= 1
-                if res is None or len(res) != 1:
-                    raise NCError(f"helper {target.qual} does not return one matrix term")
-                return res[0]
+                if res is None or not res:
+                    raise NCError(f"helper {target.qual} does not return a matrix term")
+                return res[0] if len(res) == 1 else list(res)  # several values: only a tuple assignment can take them
             raise NCError(f"call `{unparse(node)[:60]}` outside the matrix-term grammar")
         raise NCError(f"{type(node).__name__} `{unparse(node)[:50]}`")
 
